@@ -393,6 +393,12 @@ struct url_aggregator : url_base {
   template <bool override_hostname = false>
   bool set_host_or_hostname(std::string_view input);
 
+  /**
+   * set_port() proper. When check_max_length is false the caller is
+   * responsible for the maximum-length check (see set_host_or_hostname).
+   */
+  bool set_port_impl(std::string_view input, bool check_max_length);
+
   ada_really_inline bool parse_host(std::string_view input);
 
   inline void update_base_authority(std::string_view base_buffer,
